@@ -435,7 +435,7 @@ impl std::fmt::Debug for TVal {
 // ---------------------------------------------------------------------------
 // hashers
 
-#[derive(Clone, Debug)]
+#[derive(Debug)]
 pub enum HB {
     /// Every key collides completely.
     Const,
@@ -446,7 +446,24 @@ pub enum HB {
     /// SipHash 2-4 with the given keys.
     Sip(u64, u64),
     /// hashbrown's default hasher.
-    Default(hashbrown::hash_map::DefaultHashBuilder)
+    Default(hashbrown::hash_map::DefaultHashBuilder),
+    /// SipHash whose key changes with every `clone()` of the builder (like a builder that draws
+    /// a fresh random state when cloned): the clone of a cache hashes differently from its
+    /// source, so nothing computed with one builder may be used with the other.
+    Reseed(u64)
+}
+
+impl Clone for HB {
+    fn clone(&self) -> HB {
+        match self {
+            HB::Const => HB::Const,
+            HB::OneBit => HB::OneBit,
+            HB::Identity => HB::Identity,
+            HB::Sip(a, b) => HB::Sip(*a, *b),
+            HB::Default(d) => HB::Default(d.clone()),
+            HB::Reseed(s) => HB::Reseed(s.wrapping_mul(0x9E3779B97F4A7C15).wrapping_add(1))
+        }
+    }
 }
 
 impl HB {
@@ -458,6 +475,7 @@ impl HB {
             "sip" => Some(HB::Sip(0x0706050403020100, 0x0f0e0d0c0b0a0908)),
             "siprand" => Some(HB::Sip(seed.wrapping_mul(0x9E3779B97F4A7C15), !seed)),
             "default" => Some(HB::Default(Default::default())),
+            "reseed" => Some(HB::Reseed(seed ^ 0x5bd1e995)),
             _ => None
         }
     }
@@ -482,7 +500,8 @@ impl BuildHasher for HB {
             HB::OneBit => HH::OneBit(0),
             HB::Identity => HH::Identity(0),
             HB::Sip(a, b) => HH::Sip(std::hash::SipHasher::new_with_keys(*a, *b)),
-            HB::Default(d) => HH::Default(d.build_hasher())
+            HB::Default(d) => HH::Default(d.build_hasher()),
+            HB::Reseed(s) => HH::Sip(std::hash::SipHasher::new_with_keys(*s, !*s))
         }
     }
 }
